@@ -372,10 +372,10 @@ theorem round_ok_syncs (pre : List Ev) (hlaw : Law {} pre) (during c : Nat) (cEr
       exact absurd h1 (hno _ _)
   · exact ⟨c, by rw [ho], hc⟩
 
-/-! ### `Provider.Provide`: bounded retries, destination rewound but not truncated -/
+/-! ### `Provider.Provide`: bounded retries; the destination starts empty at every attempt -/
 
-theorem provideLoop_used (b : Nat) (atts : List Attempt) (file : List UInt8) (used : Nat) :
-    (provideLoop b atts file used).2.2 ≤ used + b := by
+theorem provideLoop_used (t : Bool) (b : Nat) (atts : List Attempt) (file : List UInt8) (used : Nat) :
+    (provideLoop t b atts file used).2.2 ≤ used + b := by
   induction b generalizing atts file used with
   | zero => simp [provideLoop]
   | succ b ih =>
@@ -385,12 +385,40 @@ theorem provideLoop_used (b : Nat) (atts : List Attempt) (file : List UInt8) (us
       simp only [provideLoop]
       split
       · simp <;> omega
-      · have := ih rest (overwrite file a.written) (used + 1); omega
+      · have := ih rest (if t then a.written else overwrite file a.written) (used + 1); omega
 
 /-- `Provide` makes at most `nRetries + 1` backup attempts -/
-theorem provide_attempts_bounded (n : Nat) (atts : List Attempt) : (provide n atts).2.2 ≤ n + 1 := by
-  have := provideLoop_used (n + 1) atts [] 0
+theorem provide_attempts_bounded (t : Bool) (n : Nat) (atts : List Attempt) : (provide t n atts).2.2 ≤ n + 1 := by
+  have := provideLoop_used t (n + 1) atts [] 0
   simpa [provide] using this
+
+theorem provideLoop_trunc_exact (b : Nat) (atts : List Attempt) (file : List UInt8) (used : Nat)
+    (hok : (provideLoop true b atts file used).2.1 = true) :
+    ∃ a ∈ atts, a.ok = true ∧ (provideLoop true b atts file used).1 = a.written := by
+  induction b generalizing atts file used with
+  | zero => simp [provideLoop] at hok
+  | succ b ih =>
+    cases atts with
+    | nil => simp [provideLoop] at hok
+    | cons a rest =>
+      simp only [provideLoop, if_true] at hok ⊢
+      cases ha : a.ok with
+      | true =>
+        simp only [ha, if_true]
+        exact ⟨a, by simp, ha, rfl⟩
+      | false =>
+        simp only [ha, Bool.false_eq_true, if_false] at hok ⊢
+        obtain ⟨a', hm, h1, h2⟩ := ih rest a.written (used + 1) hok
+        exact ⟨a', by simp [hm], h1, h2⟩
+
+/-- **What `Provide` hands to the Uploader is exactly one successful backup** (full
+strength, for a destination that can be truncated — the temporary *os.File the Uploader
+passes): if `Provide` returns nil, the destination holds exactly the bytes written by a
+successful attempt, whatever the earlier failed attempts had written and however long they
+were. -/
+theorem provide_exact (n : Nat) (atts : List Attempt) (hok : (provide true n atts).2.1 = true) :
+    ∃ a ∈ atts, a.ok = true ∧ (provide true n atts).1 = a.written :=
+  provideLoop_trunc_exact _ _ _ _ hok
 
 theorem overwrite_of_le (file b : List UInt8) (h : file.length ≤ b.length) : overwrite file b = b := by
   simp [overwrite, List.drop_eq_nil_of_le h]
@@ -402,15 +430,15 @@ theorem provideLoop_exact (b : Nat) (atts : List Attempt) (file : List UInt8) (u
     (hfile : file.length ≤ m)
     (hfailed : ∀ a ∈ atts, a.ok = false → a.written.length ≤ m)
     (hgood : ∀ a ∈ atts, a.ok = true → a.written.length = m)
-    (hok : (provideLoop b atts file used).2.1 = true) :
-    ∃ a ∈ atts, a.ok = true ∧ (provideLoop b atts file used).1 = a.written := by
+    (hok : (provideLoop false b atts file used).2.1 = true) :
+    ∃ a ∈ atts, a.ok = true ∧ (provideLoop false b atts file used).1 = a.written := by
   induction b generalizing atts file used with
   | zero => simp [provideLoop] at hok
   | succ b ih =>
     cases atts with
     | nil => simp [provideLoop] at hok
     | cons a rest =>
-      simp only [provideLoop] at hok ⊢
+      simp only [provideLoop, Bool.false_eq_true, if_false] at hok ⊢
       cases ha : a.ok with
       | true =>
         simp only [ha, if_true]
@@ -428,20 +456,21 @@ theorem provideLoop_exact (b : Nat) (atts : List Attempt) (file : List UInt8) (u
           (fun x hx => hfailed x (by simp [hx])) (fun x hx => hgood x (by simp [hx])) hok
         exact ⟨a', by simp [hm], h1, h2⟩
 
-/-- If `Provide` returns nil and no failed attempt wrote more bytes than a successful
-backup has, the destination holds exactly the bytes of a successful attempt. -/
+/-- A destination WITHOUT a `Truncate` method is only rewound: there the result is exact
+only when no failed attempt wrote more bytes than a successful backup has … -/
 theorem provide_exact_when_failed_attempts_not_longer (n : Nat) (atts : List Attempt) (m : Nat)
     (hfailed : ∀ a ∈ atts, a.ok = false → a.written.length ≤ m)
     (hgood : ∀ a ∈ atts, a.ok = true → a.written.length = m)
-    (hok : (provide n atts).2.1 = true) :
-    ∃ a ∈ atts, a.ok = true ∧ (provide n atts).1 = a.written :=
+    (hok : (provide false n atts).2.1 = true) :
+    ∃ a ∈ atts, a.ok = true ∧ (provide false n atts).1 = a.written :=
   provideLoop_exact _ _ _ _ m (by simp) hfailed hgood hok
 
-/-- The destination is rewound, not truncated: after a failed attempt that wrote MORE
-bytes than the successful retry, the tail of the failed attempt stays in the file that
-is then uploaded. -/
+/-- … and otherwise the tail of the longer failed attempt stays (this was the behaviour for
+EVERY destination before the `fix:` commit: the uploaded file was then not a readable backup);
+with truncation the same attempts give exactly the successful backup. -/
 theorem provide_trailing_bytes_witness :
-    provide 10 [⟨[1, 2, 3], false⟩, ⟨[9], true⟩] = ([9, 2, 3], true, 2) := by decide
+    provide false 10 [⟨[1, 2, 3], false⟩, ⟨[9], true⟩] = ([9, 2, 3], true, 2) ∧
+    provide true 10 [⟨[1, 2, 3], false⟩, ⟨[9], true⟩] = ([9], true, 2) := by decide
 
 /-! ### non-vacuity -/
 
